@@ -42,8 +42,8 @@ META = dict(
         "documented to be the fluctuation scale)",
     ],
     need=["agree_checks", "cl_total", "cl_slice_avg", "re_total", "refinement_pairs", "matern_cases",
-          "product_cases", "matern_noadjust_volume_ne_1"],
-    quick=dict(cases=110, workers=6, budget_s=60),
+          "product_cases", "matern_noadjust_volume_ne_1", "matern_power_vs_amplitude"],
+    quick=dict(cases=110, workers=6, budget_s=150),
     thorough=dict(cases=2500, workers=16, budget_s=780),
     design_ref="DESIGN.md §5 C28",
     level_text="~100 (quick) generated model configurations, each with exact (not sampled) variances",
@@ -461,6 +461,29 @@ def case(ck, i):
 
     if cl_only:
         return
+    # ---- (a') power parametrisation of Matern spectra: P(k) with log-log slope c is by definition the
+    # amplitude sqrt(P(k)) with slope c/2, so for a normal slope prior (m, s) the power model equals the
+    # amplitude model with prior (m/2, s/2) at the same latent parameters, with and without renormalisation
+    # (the amplitude model without renormalisation is the one compared with nifty.cl above)
+    if has_matern:
+        import copy
+        cfg_half = copy.deepcopy(cfg)
+        for sp in cfg_half["spaces"]:
+            if sp["matern"]:
+                m_, s_ = sp["kw"]["loglogslope"]
+                sp["kw"]["loglogslope"] = (m_ / 2, s_ / 2)
+        pk = tuple("power" if sp["matern"] else "power" for sp in cfg["spaces"])
+        ak = tuple("amplitude" if sp["matern"] else "power" for sp in cfg["spaces"])
+        pj = {k: jnp.asarray(v) for k, v in pos.items()}
+        for rn in (False, True):
+            _, jp = build_re(jft, cfg, pk, rn)
+            _, ja = build_re(jft, cfg_half, ak, rn)
+            fp, fa = np.asarray(jp(pj)), np.asarray(ja(pj))
+            ck.hit("matern_power_vs_amplitude")
+            if fp.shape != fa.shape or ndev(fp, fa) > 1e-10:
+                bad(f"re:matern:power-vs-amplitude:renormalize={rn}", "JAX Matern model in power "
+                    "parametrisation (slope c) differs from the amplitude parametrisation with slope c/2 at "
+                    "the same latent parameters", dev=float(ndev(fp, fa)) if fp.shape == fa.shape else None)
     # ---- (b) on the JAX side, incl. the JAX-only options ---------------------------------------------
     variants = [(None, None)]
     kinds = tuple(pick(rng, ["amplitude", "power"]) for _ in cfg["spaces"])
